@@ -10,6 +10,14 @@
              reduced hash unchanged and nothing else altered => same answer as the unaltered call;
              heavy (i <= heavyAlts): the verification equation decides;  otherwise rejected (assumption A1 of the check:
              an in-range single alteration of a valid signature, key or reduced hash does not verify).
+     7 (retry lines) the constructed history does not take the planned branches: no verdict on the code (reported as
+       inconclusive by the check), the other parts are still decided
+   Retry lines (g12sRetry, bign96Retry, dstuRetry): the tape is CONSTRUCTED so that its draws take the repetition branches of
+   the signing algorithm (one-time key out of range, r = 0, s = 0; r.want lists the planned branch per draw).  Cheap form
+   (every line): key pair, components in range, the signature equation for the draw the library stopped at, no admissible
+   draw skipped as far as the range conditions tell, Sign -> Verify.  hs = 1: G12sSign / B96Sign / DstuSign of ref/Schemes.tla
+   recompute the whole loop: which draw is used and the signature it defines;  hv = 1: the verification equation accepts
+   the recorded signature under the recorded public key;  hg = 1: the public key belongs to d.
    "heavy" lines spend scalar multiplications / long exponentiations in TLC (value oracle). *)
 EXTENDS Schemes, Json, IOUtils, TLC, FiniteSetsExt
 
@@ -39,20 +47,13 @@ G12sBad(r) ==
                ELSE /\ r.rcGen = 0 /\ Eq(d, dd.v) /\ r.drawsGen = dd.tries
                     /\ EB!IsOnCurve(E, Q[1], Q[2])
                     /\ (HeavyGen(r) => EB!ScalarMulJ(E, d, P) = Q)
-      \* the specified signature for the draws of the tape (heavy): redraw while r = 0 or s = 0
-      specSig == FoldLeft(LAMBDA st, j :
-                   IF st.done THEN st
-                   ELSE LET len == (BitLen(q) + 7) \div 8
-                            k == Norm(ModPow2(Num(TapeChunk(r.k, j, len)), BitLen(q)))
-                        IN IF IsZero(k) \/ ~Less(k, q) THEN st
-                           ELSE LET rr == G12sROf(E, P, k, q)  ss == G12sSOf(rr, d, k, e, q)
-                                IN IF IsZero(rr) \/ IsZero(ss) THEN st ELSE [done |-> TRUE, r |-> rr, s |-> ss],
-                   [done |-> FALSE, r |-> Zero, s |-> Zero], Rng(1, 4))
+      \* the specified signature for the draws of the tape (heavy): the loop of GOST 6.1 (repeat while r = 0 or s = 0)
+      specSig == G12sSign(E, P, q, d, e, r.k)
       signOk == IF ~dd.ok THEN TRUE
                 ELSE IF ~kd.ok THEN r.rcSign # 0
                 ELSE /\ r.rcSign = 0
                      /\ G12sSigInRange(rs[1], rs[2], q)
-                     /\ IF HeavySign(r) THEN specSig.done /\ Eq(rs[1], specSig.r) /\ Eq(rs[2], specSig.s)
+                     /\ IF HeavySign(r) THEN specSig.ok /\ Eq(rs[1], specSig.r) /\ Eq(rs[2], specSig.s) /\ r.drawsSign = specSig.used
                         \* cheap form: s fits the signature equation for the draw the library stopped at (its number of
                         \* generator calls); a later draw than the first admissible one only in the constructed s = 0 scenarios
                         \* (redraw = 1), where the heavy copy recomputes the whole loop
@@ -183,6 +184,96 @@ DstuPointBad(r) ==
                   /\ r.rcComp = 0
                   /\ PEq(POfOct(r.xp2), DstuCompress(C, rec[1], rec[2])))
 
+\* ------------------------------------------------------------------ constructed histories: the repetitions of the signing loops
+HeavyVer(r) == Has(r, "hv") /\ r.hv = 1
+\* cheap knowledge about the draws before the one the library stopped at: none of them is admissible unless the plan says that
+\* it is discarded for r = 0 / s = 0 (decided by the heavy copy); the draw used is in range
+G12sRetryBad(r) ==
+  LET q == Num(r.q)  p == Num(r.p)  no == Len(r.p)  l == r.l
+      E == EB!BCurve(p, Num(r.a), Num(r.b))
+      P == EB!BPt(Num(r.xP), Num(r.yP))
+      dd == DrawNZ(r.dtape, q)
+      d == Num(r.priv)
+      Q == <<Num(SubSeq(r.pub, 1, no)), Num(SubSeq(r.pub, no + 1, 2 * no))>>
+      e == G12sE(r.H, q)
+      rs == G12sRS(r.sig, l)
+      nd == Len(r.tape) \div ((BitLen(q) + 7) \div 8)
+      InRange(j) == LET k == DrawOf(r.tape, j, q) IN ~IsZero(k) /\ Less(k, q)
+      genOk == /\ dd.ok /\ r.rcGen = 0 /\ Eq(d, dd.v) /\ EB!IsOnCurve(E, Q[1], Q[2])
+               /\ (HeavyGen(r) => EB!ScalarMulJ(E, d, P) = Q)
+      spec == G12sSign(E, P, q, d, e, r.tape)
+      signOk == IF HeavySign(r)
+                THEN /\ (r.rcSign = 0) = spec.ok
+                     /\ (spec.ok => r.sig = G12sSigOct(spec.r, spec.s, l) /\ r.drawsSign = spec.used)
+                ELSE /\ r.rcSign = 0 /\ G12sSigInRange(rs[1], rs[2], q)
+                     /\ r.drawsSign \in 1..nd /\ InRange(r.drawsSign)
+                     /\ \A j \in 1..(r.drawsSign - 1) : InRange(j) => r.want[j] \in {"r=0", "s=0"}
+                     /\ Eq(rs[2], G12sSOf(rs[1], d, DrawOf(r.tape, r.drawsSign, q), e, q))
+      verOk == /\ (r.rcSign = 0 => r.rcVerify = 0)
+               /\ (HeavyVer(r) /\ r.rcSign = 0 => G12sVerify(E, P, q, r.H, r.sig, l, Q))
+      planOk == HeavySign(r) => spec.why = r.want
+  IN IF r.rcStd # 0 \/ r.built # 1 THEN {0}
+     ELSE Part(1, genOk) \cup Part(2, signOk) \cup Part(3, verOk) \cup Part(7, planOk)
+
+B96RetryBad(r) ==
+  LET q == Num(r.q)  p == Num(r.p)
+      E == EB!BCurve(p, Num(r.pa), Num(r.pb))
+      G == EB!BPt(Zero, Num(r.yG))
+      dd == DrawNZ(r.dtape, q)
+      d == Num(r.priv)
+      Q == <<Num(SubSeq(r.pub, 1, 24)), Num(SubSeq(r.pub, 25, 48))>>
+      s0 == Num(SubSeq(r.sig, 1, 10))
+      s1 == Num(SubSeq(r.sig, 11, 34))
+      nd == Len(r.tape) \div 24
+      InRange(j) == LET k == DrawOf(r.tape, j, q) IN ~IsZero(k) /\ Less(k, q)
+      genOk == /\ dd.ok /\ r.rcGen = 0 /\ Eq(d, dd.v) /\ EB!IsOnCurve(E, Q[1], Q[2])
+               /\ (HeavyGen(r) => EB!ScalarMulJ(E, d, G) = Q)
+      spec == B96Sign(E, G, q, r.oid, r.H, d, r.tape)
+      signOk == IF HeavySign(r)
+                THEN /\ (r.rcSign = 0) = spec.ok
+                     /\ (spec.ok => r.sig = spec.r /\ r.drawsSign = spec.used)
+                ELSE /\ r.rcSign = 0 /\ Less(s1, q)
+                     /\ r.drawsSign \in 1..nd /\ InRange(r.drawsSign)
+                     /\ \A j \in 1..(r.drawsSign - 1) : ~InRange(j)
+                     /\ Eq(s1, B96S1Of(s0, r.H, d, DrawOf(r.tape, r.drawsSign, q), q))
+      verOk == /\ (r.rcSign = 0 => r.rcVerify = 0)
+               /\ (HeavyVer(r) /\ r.rcSign = 0 => B96Verify(E, G, q, r.oid, r.H, r.sig, Q))
+      planOk == HeavySign(r) => spec.why = r.want
+  IN IF r.rcStd # 0 \/ r.built # 1 THEN {0}
+     ELSE Part(1, genOk) \cup Part(2, signOk) \cup Part(3, verOk) \cup Part(7, planOk)
+
+DstuRetryBad(r) ==
+  LET C == [F |-> DstuField(r.f), A |-> r.A, B |-> PNorm(POfOct(r.B))]
+      m == r.f[1]  no == (m + 7) \div 8
+      n == Num(r.n)  nb == BitLen(n)  ono == (nb + 7) \div 8
+      P == <<PNorm(POfOct(r.Px)), PNorm(POfOct(r.Py))>>
+      dd == DrawBits(r.dtape, nb - 1)
+      d == Num(r.priv)
+      Q == <<PNorm(POfOct(SubSeq(r.pub, 1, no))), PNorm(POfOct(SubSeq(r.pub, no + 1, 2 * no)))>>
+      h == DstuH(r.H, m)
+      ld == r.ldSig
+      parts == DstuSigParts(r.sig, ld, n)
+      nd == Len(r.tape) \div ono
+      EOf(j) == Norm(ModPow2(Num(TapeChunk(r.tape, j, ono)), nb - 1))
+      genOk == /\ r.rcPointGen = 0 /\ E2OnCurve(C, P[1], P[2])
+               /\ dd.ok /\ r.rcGen = 0 /\ Eq(d, dd.v) /\ Len(r.priv) = ono
+               /\ E2OnCurve(C, Q[1], Q[2]) /\ r.rcPubVal = 0
+               /\ (HeavyGen(r) => Q = E2Neg(C, E2Mul(C, d, P)))
+      spec == DstuSign(C, P, n, d, h, r.tape)
+      signOk == IF ~DstuLdOk(ld, n) THEN r.rcSign # 0
+                ELSE IF HeavySign(r)
+                THEN /\ (r.rcSign = 0) = spec.ok
+                     /\ (spec.ok => r.sig = DstuSigOct(spec.r, spec.s, ld) /\ r.drawsSign = spec.used)
+                ELSE /\ r.rcSign = 0 /\ parts[3] /\ DstuSigInRange(parts[1], parts[2], n)
+                     /\ r.drawsSign \in 1..nd /\ ~IsZero(EOf(r.drawsSign))
+                     /\ \A j \in 1..(r.drawsSign - 1) : ~IsZero(EOf(j)) => r.want[j] \in {"r=0", "s=0"}
+                     /\ Eq(parts[2], DstuSOf(EOf(r.drawsSign), d, parts[1], n))
+      verOk == /\ (r.rcSign = 0 => r.rcVerify = 0)
+               /\ (HeavyVer(r) /\ r.rcSign = 0 => DstuVerifyEq(C, P, n, h, parts[1], parts[2], Q))
+      planOk == HeavySign(r) => spec.why = r.want
+  IN IF r.rcStd # 0 \/ r.built # 1 THEN {0}
+     ELSE Part(1, genOk) \cup Part(2, signOk) \cup Part(3, verOk) \cup Part(7, planOk)
+
 \* ------------------------------------------------------------------ pfok
 PfokBad(r) ==
   LET P == [l |-> r.l, r |-> r.r, n |-> r.n, p |-> Num(r.p), g |-> Num(r.g)]
@@ -223,6 +314,9 @@ Bad(r) ==
     [] r.op = "dstu" -> DstuBad(r)
     [] r.op = "dstuPoint" -> DstuPointBad(r)
     [] r.op = "pfok" -> PfokBad(r)
+    [] r.op = "g12sRetry" -> G12sRetryBad(r)
+    [] r.op = "bign96Retry" -> B96RetryBad(r)
+    [] r.op = "dstuRetry" -> DstuRetryBad(r)
     [] r.op = "gf2" -> Gf2Bad(r)
     [] OTHER -> {0}
 
